@@ -91,6 +91,31 @@ func (w *writerA) cursorSiblings(rule string) {
 					ok, why = false, "bytes are copied to writeBuf at an offset other than w.pos"
 					continue
 				}
+				// fast path: the whole source is copied where the path knows it fits (len(src) <= len(writeBuf) - w.pos),
+				// and w.pos advances by the copy count (= len(src) there) or by len(src)
+				if src.Kind == core.KParam {
+					x := p.X
+					room := x.Bin(token.SUB, x.Len(dst.Args[0]), pos, intT)
+					if !x.ProveLeq(x.Len(src), room) {
+						ok, why = false, "the whole source is copied into writeBuf without the path knowing that it fits (bytes beyond the buffer would be dropped silently)"
+						continue
+					}
+					adv := false
+					for k := i + 1; k < len(p.Events); k++ {
+						e := &p.Events[k]
+						if e.Kind == core.EvStore && isFieldAddr(e.Addr, w.mwPos) {
+							adv = e.Val == x.Bin(token.ADD, pos, ev.Result, intT) || e.Val == x.Bin(token.ADD, pos, x.Len(src), intT)
+							break
+						}
+						if e.Kind == core.EvCall && e.Builtin == "" {
+							break
+						}
+					}
+					if !adv {
+						ok, why = false, "after copying the whole source w.pos is not advanced by the number of bytes copied"
+					}
+					continue
+				}
 				if src.Kind != core.KSlice || src.Args[2].Kind == core.KNone {
 					ok, why = false, "the copied source is not a bounded slice src[off:off+n]"
 					continue
